@@ -278,6 +278,23 @@ def channel_pairing(ck, agg, b):
                 agg.add("R18.4", f_cm, "across `with` blocks the whitening index names the frequency the channel shadow holds", idx in (0, 1, 2) and shc == freq[idx],
                         "%s on BLE channel %d: index becomes %r while the channel shadow holds %r - the next block is tuned to %s MHz but whitens for channel %s" % (
                             meth, 37 + cur, idx, shc, 2400 + shc if isinstance(shc, int) else "?", 37 + idx if isinstance(idx, int) else "?"))
+    # ... and so does *reading* the channel between two blocks, while another object has the shared radio tuned elsewhere: whatever the
+    # getter does to the channel shadow, the whitening index still names the frequency that shadow holds (the next __enter__ tunes to it)
+    f_get = P.method(b.cls, "channel", "get")
+    for cur in (0, 1, 2):
+        for foreign in (76, freq[(cur + 1) % 3]):
+            n += 1
+            st = b.fresh({5: freq[cur]}, fields={b.freq_index_field(): Const(cur)})
+            st.extra["regs"][5] = Const(foreign)          # the register only: another user of the radio retuned it
+            for out in b.run(f_get, [], st):
+                if out.kind != "return":
+                    continue
+                idx = const_of(norm(b.obj(out.state).fields.get(b.freq_index_field())))
+                sh = b.shadow_value(out.state, 5)
+                shc = const_of(norm(sh)) if sh is not None and hasattr(sh, "key") else None
+                agg.add("R18.4", f_get, "reading `channel` while another object has retuned the radio keeps whitening index and channel shadow paired", idx in (0, 1, 2) and shc == freq[idx],
+                        "ble.channel read on BLE channel %d while RF_CH holds %d: the channel shadow becomes %r with the index still %r - the next `with ble:` is tuned to %s MHz but whitens for channel %s" % (
+                            37 + cur, foreign, shc, idx, 2400 + shc if isinstance(shc, int) else "?", 37 + idx if isinstance(idx, int) else "?"))
     # the constructor establishes the pairing
     for out in [o for o in b.init_outs if o.kind == "return"][:2]:
         idx = const_of(norm(b.obj(out.state).fields.get(b.freq_index_field())))
@@ -308,6 +325,29 @@ def constants(ck, agg, b):
         v = b.obj(out.state).fields.get("_ble_name")
         agg.add("R18.6", f_name, "a str name is stored encoded (bytes): the packet's length arithmetic counts bytes", ty_of(v) in ("bytes", "bytearray", "byteslike"),
                 "name = <str> stores %r (%s): len() of it counts characters, the advertisement carries its UTF-8 bytes" % (v, ty_of(v)))
+    # show_pa_level setter: any truthy value switches the 3-byte TX-power structure on, any falsy value off - the packet assembled after
+    # `show_pa_level = x` has the length byte and the total length of exactly that layout (a flag kept as given - 2 instead of True - is
+    # multiplied into the size arithmetic: the length byte then points past the CRC and every receiver drops the packet)
+    f_show = P.method(b.cls, "show_pa_level", "set")
+    f_mk = P.method(b.cls, "_make_payload")
+    for arg in (Const(True), Const(1), Const(2), Const(0x80), Const(False), Const(0)):
+        st, pl = scenario(b, False, False)
+        for o1 in b.run(f_show, [arg], st):
+            if o1.kind != "return":
+                agg.add("R18.6", f_show, "show_pa_level accepts any truth value when there is room", False, "show_pa_level = %r raises %s" % (arg.v, o1.value.exc))
+                continue
+            want = expected_total(bool(arg.v), False)
+            for o2 in b.run(f_mk, [pl], o1.state):
+                if o2.kind != "return" or not isinstance(o2.value, Bytes):
+                    continue
+                cl = cells(o2.value.parts)
+                ln = as_lin(norm(o2.value.length()))
+                d = lin_add(ln, want, -1) if ln is not None else None
+                pls = as_lin(norm(cl[1][1])) if len(cl) > 1 and isinstance(cl[1], tuple) and cl[1][0] == "v" else None
+                dd = lin_add(pls, lin_add(want, Lin({}, TB.HEADER_LEN + TB.CRC_LEN), -1), -1) if pls is not None else None
+                agg.add("R18.6", f_show, "after `show_pa_level = x` the packet has the layout of bool(x): total length and length byte agree with it",
+                        d is not None and not d.terms and d.c == 0 and dd is not None and not dd.terms and dd.c == 0,
+                        "show_pa_level = %r: assembled length %r (layout %r), length byte %r (expected layout - 5)" % (arg.v, ln, want, cl[1][1] if len(cl) > 1 and isinstance(cl[1], tuple) else None))
     # mac setter: at least 6 bytes
     f_mac = P.method(b.cls, "mac", "set")
     n = 1
@@ -491,6 +531,12 @@ def run(ck):
     n3 = channel_pairing(ck, agg, b)
     n4 = constants(ck, agg, b)
     n5 = bit_order(ck, agg)
+    # "advertise() loads a radio payload that - read as the on-air bit stream ...": what goes on air first is what is first in the TX FIFO;
+    # a payload the radio's previous user failed to deliver is flushed by send() on seeing MAX_RT (R02.4), which neither `with ble:` nor
+    # the mode / pipe functions may clear on the way (R03.8, shared with C02 / C03 / C08)
+    from . import c08, link
+    c08.events_kept(b, agg)
+    link.send_prologue(b, agg)
     agg.flush()
     ck.floor("R18.7", "bit-order evaluations", n5, 3)
     ck.floor("R18.1", "option combinations", n1, 4)
